@@ -15,5 +15,13 @@ for pid in pids:
     known = sum(1 for l in lines if l.startswith("KNOWN-FINDING"))
     violations = sum(1 for l in lines if l.startswith("VIOLATION"))
     print("%s exit=%d violations=%d known=%d wall=%.0fs | %s" % (pid, done.returncode, violations, known, time.time() - started, lines[-1][:160] if lines else done.stderr[-200:]), flush=True)
+    # guard against a check silently shrinking: compare the number of evaluations with the committed evidence of the same tier
+    try:
+        before = json.loads(subprocess.run(["git", "-C", HERE, "show", "HEAD:evidence/%s.json" % pid], capture_output=True, text=True).stdout)
+        after = json.load(open(os.path.join(os.environ.get("VERIF_OUT", HERE), "evidence", pid + ".json")))
+        if before.get("tier") == after.get("tier") == tier and after["coverage"]["evaluations"] < 0.9 * before["coverage"]["evaluations"]:
+            print("   WARNING %s: evaluations dropped from %d (committed) to %d" % (pid, before["coverage"]["evaluations"], after["coverage"]["evaluations"]), flush=True)
+    except Exception:
+        pass
     bad += done.returncode != 0
 sys.exit(1 if bad else 0)
